@@ -143,6 +143,42 @@ def build(tier, repo):
                              "state order differs from the constructor's parameter order", skw[:5], order)
         else:
             r2.undecided("sparse:state <-> spmatrix_new", "src/C/sparse.c:spmatrix_getstate", "Py_BuildValue shape not recognised (%s)" % (skw[:5],))
+    # the size element of the reduced state is applied whenever it is given (also (0, 0))
+    from .. import ceval as cev
+    sim_n = cm.Simulator(c, "matrix_new")
+    applied = None
+    for st in cf.walk(sim_n.body):
+        if st.get("k") == "IfStmt" and len(st.get("c", [])) > 1 and st.get("b") is not None:
+            stores = [x for x in cf.walk(st["c"][1]) if x.get("k") == "BinaryOperator" and x.get("op") == "=" and x.get("c")
+                      and cf.strip(x["c"][0]).get("k") == "MemberExpr" and cf.strip(x["c"][0]).get("n") == "nrows"]
+            if stores and applied is None:
+                ce_ = sim_n.cond_of(st)
+                if ce_ is not None:
+                    applied = (st, ce_)
+    if applied is None:
+        raise AnalysisError("matrix_new: the statement applying the size argument was not found")
+    st_, ce_ = applied
+    names = cev.free_names(ce_)
+    key = "matrix_new:size applied whenever given"
+    where = "src/C/dense.c:matrix_new:%d" % c.line_of(st_["b"])
+    if not names <= {"ret", "size", "nrows", "ncols"}:
+        r2.undecided(key, where, "guard of the reshape uses %s" % sorted(names))
+    else:
+        bad = None
+        for nr in (0, 1, 2):
+            for nc in (0, 1, 2):
+                try:
+                    v_ = cev.ceval(ce_, {"ret": 1, "size": 1, "nrows": nr, "ncols": nc})
+                except cev.Unknown:
+                    v_ = None
+                if not v_ and bad is None:
+                    bad = (nr, nc)
+        if bad:
+            r2.violation(key, where, "with a size argument (%d, %d) the requested shape is not applied (guard `%s` is false): "
+                         "matrix(list, size, tc) - the form __reduce__ emits - does not rebuild a matrix of that shape" % (bad[0], bad[1], cx.unparse(ce_)),
+                         "guard true whenever size is given", cx.unparse(ce_))
+        else:
+            r2.ok(key, where, cx.unparse(ce_))
     r2.require(7)
 
     r3 = chk.rule("C20-R3", "tofile/fromfile use the same byte count on the matrix buffer; fromfile checks the bytes read",
